@@ -16,6 +16,7 @@
   it, with or without the final newline.
 -/
 import ClairModel.Proofs.Dpkg
+import ClairModel.Proofs.Apk
 
 namespace ClairModel.Props.C02
 open ClairModel ClairModel.Bytes ClairModel.Rfc822 ClairModel.Dpkg
@@ -177,5 +178,63 @@ set_option maxRecDepth 8192 in
 example : scanDb exampleStatus =
     some [⟨asc "a", asc "1:2", asc "i386", asc "x", asc "1.2"⟩, ⟨asc "b", asc "2~", asc "all", asc "b", asc "2~"⟩] := by
   decide
+
+/-! ## apk installed -/
+
+section apk
+open ClairModel.Apk
+
+/-- `Scan` on a written database (records of `K:value` lines, each record
+    followed by an empty line) applies every line of every record, in order,
+    to that record's package: no record is dropped or merged, and the last
+    line of a record counts (the repaired defect). -/
+theorem apk_scan_is_fold_of_records (rs : List (List Apk.Line))
+    (hw : ∀ r ∈ rs, r ≠ [] ∧ ∀ l ∈ r, l.WF) :
+    Apk.scan (Apk.render rs) = scanRecords [] rs := by
+  unfold Apk.scan
+  exact scanEntries_render rs hw []
+
+/-- Exactness (partial): records written in apk's own order (`P V A [o] [c]`
+    with any other lines anywhere, values padded with any white space) are
+    reported exactly — one package per record, in order, with name, version,
+    architecture, commit and origin as written and the origin's version equal
+    to the package's — provided packages of one origin carry one version. -/
+theorem apk_scan_exact_partial (rs : List Apk.Record) (hw : ∀ r ∈ rs, r.WF)
+    (hl : ∀ r ∈ rs, ∀ l ∈ r.lines, l.WF) (hag : OriginsAgree (rs.map (·.e))) :
+    Apk.scan (Apk.render (rs.map Apk.Record.lines)) = rs.map (fun r => r.e.pkg) := by
+  rw [apk_scan_is_fold_of_records]
+  · exact scanRecords_exact rs hw hag [] (by intro e _ o x _ h; simp [Apk.lookupSrc] at h)
+  · intro ls hls
+    obtain ⟨r, hr, rfl⟩ := List.mem_map.1 hls
+    refine ⟨?_, hl r hr⟩
+    simp [Apk.Record.lines]
+
+/-- Without `OriginsAgree`: the second package of an origin is reported with
+    the first one's version as its source version (finding
+    `apk-origin-version-by-name`). -/
+theorem apk_origin_version_counterexample :
+    Apk.scan (joinLines [asc "P:a", asc "V:1", asc "o:s", [], asc "P:b", asc "V:2", asc "o:s", []]) =
+      [⟨asc "a", asc "1", [], [], some (asc "s", asc "1")⟩, ⟨asc "b", asc "2", [], [], some (asc "s", asc "1")⟩] := by
+  decide
+
+/-- Outside apk's order: an `o:` line before the `V:` line gives a source
+    without version (finding `apk-origin-before-version`). -/
+theorem apk_origin_before_version_counterexample :
+    Apk.scan (joinLines [asc "P:a", asc "o:a", asc "V:1", []]) = [⟨asc "a", asc "1", [], [], some (asc "a", [])⟩] := by
+  decide
+
+/-- A second empty line at the end of the file is reported as a package
+    without any field (finding `apk-blank-entry-phantom`). -/
+theorem apk_blank_entry_counterexample :
+    Apk.scan (joinLines [asc "P:a", [], []]) = [⟨asc "a", [], [], [], none⟩, Apk.Pkg.empty] := by
+  decide
+
+/-- The repaired defect on a concrete file: the `o:` line that ends the first
+    record and the `c:` line that ends the second are not lost. -/
+example : Apk.scan (joinLines [asc "P:a", asc "V:1", asc "o:s", [], asc "P:b", asc "V:1", asc "c:h", []]) =
+    [⟨asc "a", asc "1", [], [], some (asc "s", asc "1")⟩, ⟨asc "b", asc "1", [], asc "h", none⟩] := by
+  decide
+
+end apk
 
 end ClairModel.Props.C02
